@@ -1,4 +1,5 @@
 import Pocket.Lemmas.FindComplete
+import Pocket.Lemmas.FindNewest
 import Pocket.Thm.C06
 import Pocket.Thm.C09
 /-
@@ -10,9 +11,10 @@ Proved for every store state, every filter, every screening function and **every
 "exactly the matching events".  The *completeness* half is proved for the case in
 which the limit is not binding (`findEvents_exact`: in every reachable state, for every NIP-01
 filter, through whichever plan, the answer is **exactly** the retrievable matching screened-in
-events).  Under a binding limit, "the newest `limit` are kept" (with the moving `since`) is decided
-by the correspondence check against the abstract specification's `ValidAnswer` after every step of
-every history, and is not claimed as a theorem.
+events).  Under a binding limit, `newest_under_limit` proves "the newest `limit` are kept", with
+the moving `since` and the early range exits: whatever qualifying event is left out, exactly `limit`
+events were returned and none of them is older than it (events of equal time may be chosen either
+way, as the property allows).  `answer_characterised` puts the halves together.
 -/
 namespace Pocket.C05
 open Pocket
@@ -117,5 +119,48 @@ theorem plan_independent (ops : List Op) (f g : FilterRec) (hf : SingleLetter f)
   constructor
   · intro ⟨hx, hm, hs⟩; exact ⟨hx, by rw [← hsame x hx]; exact hm, hs⟩
   · intro ⟨hx, hm, hs⟩; exact ⟨hx, by rw [hsame x hx]; exact hm, hs⟩
+
+/-- **newest-k under a binding limit**, in every reachable state, for every NIP-01 filter, every
+screen and whichever index plan serves the filter: if a retrievable, matching, screened-in event is
+missing from the answer, the answer holds exactly `limit` events and none of them is older than
+the missing one -/
+theorem newest_under_limit (ops : List Op) (f : FilterRec) (hsl : SingleLetter f) (allow : Bool)
+    (l secs now : Nat) (scr : EventRec → Screen) (out : List SEv) (red : Bool)
+    (h : findEvents (run {} ops).db.live f allow l secs now scr = .ok out red)
+    (x : SEv) (hx : x ∈ (run {} ops).db.live) (hm : eventMatches f x.e = true) (hs : scr x.e = .match)
+    (hnot : x ∉ out) :
+    out.length = f.limit ∧ ∀ y ∈ out, x.e.createdAt ≤ y.e.createdAt :=
+  findEvents_newest _ f allow l secs now scr out red (Inv_run {} ops Inv_init).liveIds
+    (C09.one_per_address ops) hsl h x hx hm hs hnot
+
+/-- the whole of C05 for an answered query: only qualifying events, no duplicates, newest first, at
+most `limit`; and nothing qualifying is missing unless the limit is exhausted by events at least
+as new -/
+theorem answer_characterised (ops : List Op) (f : FilterRec) (hsl : SingleLetter f) (allow : Bool)
+    (l secs now : Nat) (scr : EventRec → Screen) (out : List SEv) (red : Bool)
+    (h : findEvents (run {} ops).db.live f allow l secs now scr = .ok out red) :
+    (∀ x ∈ out, x ∈ (run {} ops).db.live ∧ eventMatches f x.e = true ∧ scr x.e = .match) ∧
+    out.Pairwise (fun a b => a.e.id ≠ b.e.id) ∧
+    out.Pairwise (fun a b => a.e.createdAt ≥ b.e.createdAt) ∧
+    out.length ≤ f.limit ∧
+    (∀ x ∈ (run {} ops).db.live, eventMatches f x.e = true → scr x.e = .match → x ∉ out →
+      out.length = f.limit ∧ ∀ y ∈ out, x.e.createdAt ≤ y.e.createdAt) := by
+  obtain ⟨s1, s2, s3, s4⟩ := findEvents_sound _ f allow l secs now scr out red h
+  exact ⟨s1, s2, s3, s4, fun x hx hm hs hnot =>
+    newest_under_limit ops f hsl allow l secs now scr out red h x hx hm hs hnot⟩
+
+def answerIds : FindReply → Option (List Bytes)
+  | .ok out _ => some (out.map (·.e.id))
+  | .scraper => none
+
+/-- non-vacuity: a two-event store, limit 1 — the newer event is returned and the older one is the
+missing qualifying event of `newest_under_limit` -/
+example :
+    answerIds (findEvents (run {} [
+        .store { id := [1], pubkey := [7], kind := 1, createdAt := 10, tags := [], content := [], sig := [] },
+        .store { id := [2], pubkey := [7], kind := 1, createdAt := 20, tags := [], content := [], sig := [] }]).db.live
+      { ids := [], authors := [[7]], kinds := [], tags := [], since := 0, «until» := 100, limit := 1 }
+      false 0 0 0 (fun _ => .match)) = some [[2]] := by
+  decide +kernel
 
 end Pocket.C05
